@@ -793,7 +793,10 @@ fn run_leaf_inner(
                 }
             }
             let last = files.last().unwrap().0;
-            if last != fa.cur_file {
+            // An implementation may create the next file as soon as the current one is full: when
+            // the cursor sits exactly at the end of a file, "the file being written" is either.
+            let at_file_end = fa.last_end_abs.map(|a| a > 0 && a % FILE as u64 == 0).unwrap_or(true);
+            if last != fa.cur_file && !(at_file_end && last == fa.cur_file + 1) {
                 return fail("run-does-not-end-at-current", format!("step {} {}: WAL files {:?} but the file being written is {}", i, op.short(), files.iter().map(|f| f.0).collect::<Vec<_>>(), fa.cur_file));
             }
             let oldest_attr = fa.attr.values().min().copied().unwrap_or(u64::MAX);
